@@ -42,7 +42,7 @@ SPEC = {
     "min_counters": {"faults_single_hamming": 20000, "faults_single_parity": 40000, "faults_double": 5000, "faults_burst": 500,
                      "faults_dropped_packet": 200, "headers_uncorrectable": 50, "packets_header": 20, "packets_row": 100,
                      "packets_x26": 5, "packets_x27": 5, "packets_x28": 2, "packets_830": 2, "packets_mip": 2, "transmissions_with_hex_page_and_mip": 2, "row-kept-earlier-content": 500,
-                     "row-stayed-blank": 500,
+                     "row-stayed-blank": 500, "faults_parity_in_several_bytes_of_a_row": 1000,
                      # session 6: system pages and the other enhancement / service packets
                      "packets_btt": 6, "packets_ait": 3, "packets_mpt": 2, "packets_mot": 6, "packets_pop": 8,
                      "packets_m29-0": 2, "packets_m29-4": 2, "packets_x28-4": 3, "packets_x28-1": 2, "packets_x27-4": 1, "packets_830f2": 4,
